@@ -274,6 +274,27 @@ class Case:
                     pl["refs"]["T_s%d_a%d" % (i, j)] = erase(Exp(exp.cls, [(r, src)], exp.dynamic), "nondyn", "__s%d" % (2 * i))
             self.plans.append(pl)
 
+    def union_order_conflict(self):
+        """typing (List[Union[A, B]] is List[Union[B, A]]: parametrisation cache) and apischema (F21, type-keyed caches)
+        identify unions that differ only by the order of their members; a program that contains the same union in two
+        orders cannot be given a well-defined expectation"""
+        from vf.spec import Union_, flat_alts
+
+        seen = {}
+        trees = [self.top] + [r.src for k in self.classes for r in k.all_roles()] + [t for pl in self.plans for t in pl["refs"].values()]
+        for t in trees:
+            for n in walk_all(t):
+                if isinstance(n, Union_):
+                    order = []
+                    for a in flat_alts(n):
+                        sg = a.ann()
+                        if sg not in order:
+                            order.append(sg)
+                    key = frozenset(order)
+                    if seen.setdefault(key, order) != order:
+                        return True
+        return False
+
     def source(self):
         decls = {}
         self.top.collect(decls)
@@ -1242,6 +1263,9 @@ def one_graph(env, j, ndata):
     case.plan(rng)
     if not case.plans:
         env.count("graphs_all_placements_abstained")
+        return
+    if case.union_order_conflict():
+        env.count("abstain:same union in two member orders inside one program (typing cache / F21)")
         return
     src = case.source()
     try:
